@@ -135,7 +135,8 @@ def constructs_deep(prog, g, depth=2, _seen=None):
             if c.is_ptr:
                 continue
             h = prog.fns.get(c.res)
-            if h is not None and h.full and not h.generated and not h.is_closure and len(h.blocks) < 400:
+            if h is not None and h.full and not h.generated and not h.is_closure and len(h.blocks) < 400 \
+                    and not h.from_expansion and h.impl_trait is None:
                 out |= constructs_deep(prog, h, depth - 1, seen)
     memo[key] = out
     return out
@@ -213,7 +214,9 @@ class PairTable:
             if c is not None and not c.is_ptr:
                 g = self.prog.fns.get(c.res)
                 if g is not None and g.full and not g.is_closure and not g.generated \
-                        and g.path != self.f.path:
+                        and g.path != self.f.path and not g.from_expansion and g.impl_trait is None:
+                    # (derived impls such as Clone rebuild every variant: they
+                    # copy a value, they do not compute one)
                     out |= constructs_deep(self.prog, g)
             self._bc[bb] = out
         return self._bc[bb]
